@@ -1,5 +1,5 @@
 PROPS["C20"] = dict(
-    jobs=[job("pseudo", "c20_pseudo", cases={Q: 3, T: 64})],
+    jobs=[job("pseudo", "c20_pseudo", cases={Q: 3, T: 256})],
     rule="A: for each of the 19 words and each of the 65536 values (split over shards; --cases = random well-formed states "
          "per shard, including active loop nests and pending interrupts): Set<W>(v) on the real RegisterState, full state "
          "compared with the layout table's prediction, then all 19 words read and compared with the composition of the "
@@ -16,7 +16,7 @@ PROPS["C20"] = dict(
                 "ararp_values": 6 * 65536, "ararp_interp_runs": 6 * 65536 * 3, "ararp_dsm_operands": 6 * 65536 * 3,
                 "ararp_offset_checked": 6 * 65536 * 3, "ararp_secondary_runs": 250000, "gen_records": 4 * 80000,
                 "gen_registers_checked": 4 * 8000},
-            T: {"setget_evals": 64 * 19 * 65536, "readback_checked": 64 * 19 * 65536, "instr_runs": 4000000,
+            T: {"setget_evals": 256 * 19 * 65536, "readback_checked": 256 * 19 * 65536, "instr_runs": 100000000,
                 "ararp_values": 6 * 65536, "ararp_interp_runs": 6 * 65536 * 3, "ararp_dsm_operands": 6 * 65536 * 3,
                 "ararp_offset_checked": 6 * 65536 * 3, "ararp_secondary_runs": 250000, "gen_records": 16 * 80000,
                 "gen_registers_checked": 16 * 8000}},
@@ -26,7 +26,7 @@ PROPS["C20"] = dict(
     level_text="Complete enumeration of the written-value axis: every 16-bit value of each of the 19 words (and of the six ar/arp "
                "words for the three-way clause) is written and every word read back, from a sample of random well-formed "
                "register states (counts in evidence); the instruction-level paths and the generator stream are sampled.",
-    level_note="Register states are sampled (3 per shard quick, 64 thorough), not enumerated; '-1' and '-1*' offsets and the two "
+    level_note="Register states are sampled (3 per shard quick, 256 thorough; every value meets that many states), not enumerated; '-1' and '-1*' offsets and the two "
                "+-2 step modes are distinguished by the disassembler names and the table only (with modulo off they move the "
                "register/cell identically). The generator reseeds itself from random_device: its stream is a workload, the "
                "failing record is the witness.",
